@@ -193,6 +193,9 @@ fn worker(
         return stats.into_inner();
     }
     let first_sig: RefCell<Option<String>> = RefCell::new(None);
+    // wall-clock cap on shrinking only (never on the verdict): candidates tried after the cap are
+    // reported to proptest as passing without being evaluated, which ends the shrink quickly
+    let fail_at: Cell<Option<Instant>> = Cell::new(None);
     let nsamples = Cell::new(0usize);
     let trace = std::env::var("PVH_TRACE").is_ok();
     let config = Config {
@@ -207,6 +210,11 @@ fn worker(
     let strategy = proptest::collection::vec(proptest::num::u8::ANY, (max_len / 4)..=max_len);
     let result = runner.run(&strategy, |bytes| {
         let failed_before = first_sig.borrow().is_some();
+        if let Some(t) = fail_at.get() {
+            if t.elapsed().as_secs() >= 25 {
+                return Ok(());
+            }
+        }
         let ctx = Ctx {
             tier,
             strict: false,
@@ -231,6 +239,7 @@ fn worker(
                 match &*fs {
                     None => {
                         *fs = Some(f.signature.clone());
+                        fail_at.set(Some(Instant::now()));
                         Err(TestCaseError::fail(f.signature))
                     }
                     Some(sig) if *sig == f.signature => Err(TestCaseError::fail(f.signature)),
@@ -372,6 +381,20 @@ pub fn finding_is_open(finding: &str) -> bool {
                 .collect()
         })
         .contains(finding)
+}
+
+/// Keep evidence samples readable: string fields longer than `max` characters are cut.
+pub fn truncate_sample(info: &mut CaseInfo, max: usize) {
+    if let Some(Value::Object(m)) = info.sample.as_mut() {
+        for (_, v) in m.iter_mut() {
+            if let Some(st) = v.as_str() {
+                if st.len() > max {
+                    let cut: String = st.chars().take(max).collect();
+                    *v = json!(format!("{} ... ({} chars)", cut, st.len()));
+                }
+            }
+        }
+    }
 }
 
 pub struct RunResult {
